@@ -361,6 +361,15 @@ func (r *codecRunner) run(op Op) {
 		})
 		e.Ok, e.RefOk = e.Panic == "", true
 		r.project(e)
+	case "plantnil":
+		// Go-level states reflection cannot build: EMPTY messages held in maps, lists and oneof
+		// wrappers are replaced by nil pointers. The abstract value is unchanged (a nil message
+		// reads as an empty one), so every later event is validated against the same state.
+		planted := 0
+		e.Panic = catch(func() { planted = plantNil(reflect.ValueOf(r.p)) })
+		e.N = planted
+		e.Ok, e.RefOk = e.Panic == "", true
+		r.project(e)
 	case "alias_in":
 		// C07: decode from a caller buffer, then overwrite that buffer: the message must not notice
 		in := append(make([]byte, 0, len(op.In)+8), proj.ToBytes(op.In)...)
@@ -556,6 +565,9 @@ func randomCodecPlan(g *val.Gen, mt protoreflect.MessageType, mode string, emit 
 		return false
 	}
 	emit(Op{Op: "load", T: t, V: v})
+	if g.R.Intn(2) == 0 && (is("rt", "det", "size") || mode == "mem" || mode == "pure" || mode == "lib") {
+		emit(Op{Op: "plantnil", Tag: "plantnil"})
+	}
 	b, err := proto.MarshalOptions{Deterministic: true}.Marshal(d)
 	if err != nil {
 		die("reference marshal: %v", err)
@@ -931,4 +943,94 @@ func hasNestedUnknown(m protoreflect.Message) bool {
 		return !found
 	})
 	return found
+}
+
+// isEmptyMsg: a non-nil generated message without populated fields or unknown bytes.
+func isEmptyMsg(v reflect.Value) bool {
+	if v.Kind() != reflect.Ptr || v.IsNil() {
+		return false
+	}
+	m, ok := v.Interface().(proto.Message)
+	if !ok {
+		return false
+	}
+	j := proj.Project(proj.Impl(m), proj.WrapImpl)
+	f, _ := j["f"].(proj.J)
+	u, _ := j["u"].([]int)
+	return len(f) == 0 && len(u) == 0
+}
+
+// plantNil replaces empty messages inside maps, lists and oneof wrappers by nil pointers,
+// recursively; returns how many were replaced.
+func plantNil(v reflect.Value) int {
+	n := 0
+	if v.Kind() == reflect.Ptr || v.Kind() == reflect.Interface {
+		if v.IsNil() {
+			return 0
+		}
+		return plantNil(v.Elem())
+	}
+	if v.Kind() != reflect.Struct {
+		return 0
+	}
+	// only generated message structs of this module (not anypb etc.)
+	if strings.HasPrefix(v.Type().PkgPath(), "google.golang.org/protobuf/") {
+		return 0
+	}
+	for i := 0; i < v.NumField(); i++ {
+		f := v.Field(i)
+		sf := v.Type().Field(i)
+		if sf.PkgPath != "" {
+			continue
+		}
+		switch f.Kind() {
+		case reflect.Map:
+			if f.Type().Elem().Kind() != reflect.Ptr {
+				continue
+			}
+			for _, k := range f.MapKeys() {
+				e := f.MapIndex(k)
+				if isEmptyMsg(e) {
+					f.SetMapIndex(k, reflect.Zero(f.Type().Elem()))
+					n++
+				} else {
+					n += plantNil(e)
+				}
+			}
+		case reflect.Slice:
+			if f.Type().Elem().Kind() != reflect.Ptr {
+				continue
+			}
+			for j := 0; j < f.Len(); j++ {
+				if isEmptyMsg(f.Index(j)) {
+					f.Index(j).Set(reflect.Zero(f.Type().Elem()))
+					n++
+				} else {
+					n += plantNil(f.Index(j))
+				}
+			}
+		case reflect.Interface:
+			// oneof wrapper: *Wrapper{Field: *Msg}
+			if f.IsNil() || sf.Tag.Get("protobuf_oneof") == "" {
+				continue
+			}
+			w := f.Elem()
+			if w.Kind() == reflect.Ptr && !w.IsNil() && w.Elem().Kind() == reflect.Struct && w.Elem().NumField() == 1 {
+				inner := w.Elem().Field(0)
+				if inner.Kind() == reflect.Ptr && inner.Type().Elem().Kind() == reflect.Struct {
+					if isEmptyMsg(inner) {
+						inner.Set(reflect.Zero(inner.Type()))
+						n++
+					} else {
+						n += plantNil(inner)
+					}
+				}
+			}
+		case reflect.Ptr:
+			if f.Type().Elem().Kind() == reflect.Struct && sf.Tag.Get("protobuf") != "" {
+				n += plantNil(f)
+			}
+		}
+	}
+	return n
 }
